@@ -73,6 +73,22 @@ class FakeUnixTransport(FakeTransport):
         return UNIXAddress('/fake')
 
 
+class _UnixLikeTransport(FakeTransport):
+    """Same behaviour as FakeUnixTransport, but the class itself declares nothing."""
+    sendFileDescriptor = FakeUnixTransport.sendFileDescriptor
+    getPeer = FakeUnixTransport.getPeer
+    getHost = FakeUnixTransport.getHost
+
+
+def unix_transport_by_instance():
+    """A UNIX-socket transport that provides IUNIXTransport on the INSTANCE (zope.interface.directlyProvides), the way
+    twisted.protocols.policies.ProtocolWrapper presents the transport it wraps."""
+    from zope.interface import directlyProvides
+    t = _UnixLikeTransport()
+    directlyProvides(t, interfaces.IUNIXTransport)
+    return t
+
+
 class StubSocket:
     """transport.socket for the SO_PEERCRED path"""
 
